@@ -1,6 +1,7 @@
 package harness
 
 import (
+	"context"
 	"strings"
 	"time"
 
@@ -57,6 +58,11 @@ func genC13(r *simrt.RNG, tier string, variant int) Plan {
 				op.Panic = panicKinds[variant%len(panicKinds)]
 			}
 			op.Err = false
+			if op.Kind == "call" && r.Bool(0.3) {
+				// the caller cancels first, the (held) handler panics afterwards
+				op.Kind, op.Hold = "ctx", true
+				op.Cancel = 1 + Pick(r, []int{0, 2, 6})
+			}
 		}
 		p.Ops = append(p.Ops, op)
 	}
@@ -73,10 +79,34 @@ func runC13(e *Env, p *Plan) {
 		e.Violate("setup", "building the world failed on a healthy network: %v", err)
 		return
 	}
+	var cancels []context.CancelFunc
+	defer func() {
+		for _, c := range cancels {
+			c()
+		}
+	}()
 	for _, op := range p.Ops {
+		op := op
 		if op.Phase == 0 {
 			if op.Panic != "" {
 				e.Probe("handler-panics")
+			}
+			if op.Cancel > 0 {
+				ctx, cancel := context.WithCancel(context.Background())
+				cancels = append(cancels, cancel)
+				w.Start(op, ctx)
+				e.S.Go("cancel-"+itoa(op.Tok), func() {
+					for i := 1; i < op.Cancel; i++ {
+						simrt.Yield("cancel-delay")
+					}
+					e.Probe("cancelled-before-panic")
+					t := e.Tok(op.Tok)
+					t.mu.Lock()
+					t.Cancelled = true
+					t.mu.Unlock()
+					cancel()
+				})
+				continue
 			}
 			w.Start(op, nil)
 		}
